@@ -301,6 +301,59 @@ fn decode_node<I: Iterator<Item = u8>, J: Jet>(
     }
 }
 
+/// Verification hooks: a public mirror of the private [`DecodeNode`] and a
+/// pass-through to the private [`decode_node`]. Add-only; off by default.
+#[cfg(feature = "verif-hooks")]
+pub mod verif_hooks {
+    use super::*;
+
+    /// Public mirror of the private `DecodeNode`.
+    #[derive(Debug)]
+    pub enum DecodedNode {
+        Iden,
+        Unit,
+        InjL(usize),
+        InjR(usize),
+        Take(usize),
+        Drop(usize),
+        Comp(usize, usize),
+        Case(usize, usize),
+        Pair(usize, usize),
+        Disconnect1(usize),
+        Disconnect(usize, usize),
+        Witness,
+        Fail(FailEntropy),
+        Hidden(Cmr),
+        Jet(Box<dyn Jet>),
+        Word(Word),
+    }
+
+    /// Pass-through to the private `decode_node`.
+    pub fn decode_node<I: Iterator<Item = u8>, J: Jet>(
+        bits: &mut BitIter<I>,
+        index: usize,
+    ) -> Result<DecodedNode, Error> {
+        Ok(match super::decode_node::<I, J>(bits, index)? {
+            DecodeNode::Iden => DecodedNode::Iden,
+            DecodeNode::Unit => DecodedNode::Unit,
+            DecodeNode::InjL(i) => DecodedNode::InjL(i),
+            DecodeNode::InjR(i) => DecodedNode::InjR(i),
+            DecodeNode::Take(i) => DecodedNode::Take(i),
+            DecodeNode::Drop(i) => DecodedNode::Drop(i),
+            DecodeNode::Comp(i, j) => DecodedNode::Comp(i, j),
+            DecodeNode::Case(i, j) => DecodedNode::Case(i, j),
+            DecodeNode::Pair(i, j) => DecodedNode::Pair(i, j),
+            DecodeNode::Disconnect1(i) => DecodedNode::Disconnect1(i),
+            DecodeNode::Disconnect(i, j) => DecodedNode::Disconnect(i, j),
+            DecodeNode::Witness => DecodedNode::Witness,
+            DecodeNode::Fail(e) => DecodedNode::Fail(e),
+            DecodeNode::Hidden(c) => DecodedNode::Hidden(c),
+            DecodeNode::Jet(j) => DecodedNode::Jet(j),
+            DecodeNode::Word(w) => DecodedNode::Word(w),
+        })
+    }
+}
+
 #[cfg(test)]
 mod tests {
     use super::*;
